@@ -155,7 +155,7 @@ m("m77","src/core/execute/mod.rs","""                Err(TryRecvError::Empty) =>
                     }""","""                Err(TryRecvError::Empty) => {
                     if self.progress.is_done() || start_time.elapsed().as_millis() > 700 {
                         break;
-                    }""",["C03","C04"],"coordinator stops waiting 0.7 s after start")
+                    }""",["C05","C02"],"coordinator stops waiting 0.7 s after start (symptom: false circular-dependency failure)")
 m("m_early","src/core/execute/mod.rs","""                Err(TryRecvError::Empty) => {
                     if self.progress.is_done() {
                         break;
